@@ -364,7 +364,7 @@ def distance(s1, s2, only_ub=False, **kwargs):
     else:
         ic = min(c, c + s.window - 1) - skip
         if psi_2e != 0:
-            vc = dtw[i1 * length + ic - psi_2e:i1 * length + ic + 1]
+            vc = dtw[i1 * length + max(0, ic - psi_2e):i1 * length + ic + 1]
             d = min(array_min(vc), psi_shortest)
         else:
             d = min(dtw[i1 * length + min(c, c + s.window - 1) - skip], psi_shortest)
